@@ -6,7 +6,7 @@ V="$(cd "$(dirname "$0")/.." && pwd)"
 export CARGO_NET_OFFLINE=true
 log="$(mktemp)"
 trap 'rm -f "$log"' EXIT
-if ! (cd "$V/sendsync" && cargo build --offline >"$log" 2>&1); then
+if ! (cd "$V/sendsync" && CARGO_TARGET_DIR="$V/target/sendsync" cargo build --offline >"$log" 2>&1); then
     if grep -qE "cannot be (sent|shared) between threads|\`(Send|Sync)\` is not implemented|the trait bound .*: (Send|Sync)" "$log"; then
         mkdir -p "$V/replays/C20"
         cp "$log" "$V/replays/C20/sendsync_build_error.txt"
@@ -18,7 +18,7 @@ if ! (cd "$V/sendsync" && cargo build --offline >"$log" 2>&1); then
     echo "INCONCLUSIVE property=C20 reason=the Send+Sync assertion crate does not build (not a Send/Sync error)"
     exit 2
 fi
-if ! (cd "$V/c20w" && cargo build --release --offline >"$log" 2>&1); then
+if ! (cd "$V/c20w" && CARGO_TARGET_DIR="$V/target/c20w" cargo build --release --offline >"$log" 2>&1); then
     if grep -qE "cannot be (sent|shared) between threads|\`(Send|Sync)\` is not implemented" "$log"; then
         mkdir -p "$V/replays/C20"
         cp "$log" "$V/replays/C20/workload_build_error.txt"
